@@ -157,4 +157,35 @@ func runTRec(c *load.Ctx, r *report.RuleResult) {
 	if len(counts) == 0 {
 		r.Unk("anchor|paths", pos, "no path")
 	}
+	// whether a type leads back to itself depends on the path it is reached by (an or-alternative
+	// that loops under one root terminates under another): the checker may remember the current path
+	// and nothing else — a per-type memo of verdicts is unsound
+	if rc := namedType(c, pkgChecker, "recursionChecker"); rc != nil {
+		st, _ := rc.Underlying().(*types.Struct)
+		var extra []string
+		for i := 0; st != nil && i < st.NumFields(); i++ {
+			f := st.Field(i)
+			switch t := f.Type().Underlying().(type) {
+			case *types.Map:
+				if el, ok := t.Elem().Underlying().(*types.Struct); ok && el.NumFields() == 0 {
+					continue // a set of names: the path being expanded
+				}
+				extra = append(extra, f.Name()+" "+types.TypeString(f.Type(), func(p *types.Package) string { return p.Name() }))
+			case *types.Slice:
+				if b, ok := t.Elem().Underlying().(*types.Basic); ok && b.Kind() == types.String {
+					continue // the path, for the message
+				}
+				extra = append(extra, f.Name()+" "+types.TypeString(f.Type(), func(p *types.Package) string { return p.Name() }))
+			default:
+				extra = append(extra, f.Name()+" "+types.TypeString(f.Type(), func(p *types.Package) string { return p.Name() }))
+			}
+		}
+		if len(extra) > 0 {
+			r.Bad("recursion-state|recursionChecker", c.Pos(rc.Obj().Pos()), "the recursion checker keeps more than the path being expanded ("+strings.Join(extra, "; ")+"): a verdict remembered per type name is reused under another path, where the same type may terminate (or loop)")
+		} else {
+			r.OK("recursion-state|recursionChecker", c.Pos(rc.Obj().Pos()), "fields: a set of names and the path")
+		}
+	} else {
+		r.Unk("anchor|checker.recursionChecker", "", "type not found")
+	}
 }
